@@ -416,7 +416,7 @@ fn e3_sequences(ctx: &Ctx, res: &mut PartResult, depth: usize) {
         res.executions = n;
         res.exhaustive = complete;
         if !complete {
-            res.cap_hit = Some("wall budget".into());
+            res.cap_hit = Some("budget (cpu time of the part)".into());
         }
     }
     res.transitions = transitions;
